@@ -418,9 +418,8 @@ def check_r1(case):
     e_npa = _f(lambda: game.commuting_measurement_value_upper_bound(1), "npa1")
     n_npa = _f(lambda: nl.commuting_measurement_value_upper_bound(1), "nl_npa1")
     req(abs(e_npa - n_npa) <= TOL, f"r = 1: extended NPA level 1 {e_npa:.6f} != NonlocalGame NPA level 1 {n_npa:.6f} (pred_mat shape {pred.shape})", "r1_npa")
-    if pred.shape[2] == pred.shape[3]:
-        e_c, n_c = _f(game.unentangled_value, "unent"), float(nl.classical_value())
-        req(abs(e_c - n_c) <= 5e-4, f"r = 1: unentangled value {e_c:.6f} != NonlocalGame classical value {n_c:.6f}", "r1_classical")
+    # (the unentangled value of r = 1 games is compared with the brute force in `unentangled_bruteforce`; NonlocalGame's
+    #  classical_value belongs to C07)
 
 
 _r1 = _mix(_named_game(["nlchsh1"], pad="any"), _random_game(r=1), 1, 4)
